@@ -67,7 +67,9 @@ Theorem C06_mem_atomic_spec : forall bprog m0 cfg,
 Proof. exact mem_atomic_spec. Qed.
 Print Assumptions C06_mem_atomic_spec.
 
-(** ** SQL backends (statement tables regenerated from the source) *)
+(** ** sqlite backend (statement table regenerated from sqlite3_kv.go).
+    Nothing is claimed about psqlKV under concurrency: PostgreSQL's isolation
+    levels are not modelled (and PostgreSQL cannot run in this environment). *)
 
 Theorem C06_sql_serializable : forall bprog db0 cfg,
   qreachable gen_sqlite_methods (qinit bprog db0) cfg ->
@@ -75,13 +77,6 @@ Theorem C06_sql_serializable : forall bprog db0 cfg,
   = (qdb cfg, qresults (applied (qdone cfg))).
 Proof. exact gen_sql_serializable. Qed.
 Print Assumptions C06_sql_serializable.
-
-Theorem C06_psql_serializable : forall bprog db0 cfg,
-  qreachable gen_psql_methods (qinit bprog db0) cfg ->
-  run (sql_step gen_psql_methods) db0 (qops (applied (qdone cfg)))
-  = (qdb cfg, qresults (applied (qdone cfg))).
-Proof. exact gen_psql_serializable. Qed.
-Print Assumptions C06_psql_serializable.
 
 Theorem C06_sql_serializable_spec : forall bprog db0 cfg,
   qreachable gen_sqlite_methods (qinit bprog db0) cfg ->
@@ -94,9 +89,9 @@ Proof. exact gen_sql_serializable_spec. Qed.
 Print Assumptions C06_sql_serializable_spec.
 
 Theorem C06_sql_snapshot_stable : forall bprog db0 cfg i k f v todo,
-  qreachable deployed_methods (qinit bprog db0) cfg ->
+  qreachable gen_sqlite_methods (qinit bprog db0) cfg ->
   qths cfg i = QRead k f v todo -> exists c, lookup k (qdb cfg) = Some (c, v).
-Proof. exact sql_snapshot_stable. Qed.
+Proof. exact gen_sql_snapshot_stable. Qed.
 Print Assumptions C06_sql_snapshot_stable.
 
 (** ** In the words of the statement *)
@@ -114,14 +109,14 @@ Proof. exact mem_no_lost_update. Qed.
 Print Assumptions C06_mem_no_lost_update.
 
 Theorem C06_sql_no_lost_update : forall bprog db0 cfg k g c v0,
-  qreachable deployed_methods (qinit bprog db0) cfg -> nodupk db0 ->
+  qreachable gen_sqlite_methods (qinit bprog db0) cfg -> nodupk db0 ->
   (forall i, forallb bop_okb (bprog i) = true) ->
   (forall i, Forall (incr_or_other k g) (bprog i)) ->
   @lookup entry k db0 = Some (c, v0) ->
   let ops := qops (applied (qdone cfg)) in
   lookup k (abs (qdb cfg)) = Some (c, Nat.iter (List.length (key_ops k ops)) g v0) /\
   key_results k ops (qresults (applied (qdone cfg))) = repeat RUnit (List.length (key_ops k ops)).
-Proof. exact sql_no_lost_update. Qed.
+Proof. exact gen_sql_no_lost_update. Qed.
 Print Assumptions C06_sql_no_lost_update.
 
 Theorem C06_mem_add_once : forall bprog m0 cfg k,
@@ -142,7 +137,7 @@ Proof. exact mem_add_once. Qed.
 Print Assumptions C06_mem_add_once.
 
 Theorem C06_sql_add_once : forall bprog db0 cfg k,
-  qreachable deployed_methods (qinit bprog db0) cfg -> nodupk db0 ->
+  qreachable gen_sqlite_methods (qinit bprog db0) cfg -> nodupk db0 ->
   (forall i, forallb bop_okb (bprog i) = true) ->
   (forall i, Forall (add_or_other k) (bprog i)) ->
   @lookup entry k db0 = None ->
@@ -154,7 +149,7 @@ Theorem C06_sql_add_once : forall bprog db0 cfg k,
       key_results k ops (qresults (applied (qdone cfg))) = RUnit :: repeat (RErr EExists) (List.length rest)
   | _ => False
   end.
-Proof. exact sql_add_once. Qed.
+Proof. exact gen_sql_add_once. Qed.
 Print Assumptions C06_sql_add_once.
 
 Theorem C06_mem_emplace_keeps_first : forall bprog m0 cfg k,
@@ -173,7 +168,7 @@ Proof. exact mem_emplace_keeps_first. Qed.
 Print Assumptions C06_mem_emplace_keeps_first.
 
 Theorem C06_sql_emplace_keeps_first : forall bprog db0 cfg k,
-  qreachable deployed_methods (qinit bprog db0) cfg -> nodupk db0 ->
+  qreachable gen_sqlite_methods (qinit bprog db0) cfg -> nodupk db0 ->
   (forall i, forallb bop_okb (bprog i) = true) ->
   (forall i, Forall (emplace_or_other k) (bprog i)) ->
   @lookup entry k db0 = None ->
@@ -182,7 +177,7 @@ Theorem C06_sql_emplace_keeps_first : forall bprog db0 cfg k,
   | BEmplace _ c v :: _ => lookup k (abs (qdb cfg)) = Some (c, v)
   | _ => False
   end.
-Proof. exact sql_emplace_keeps_first. Qed.
+Proof. exact gen_sql_emplace_keeps_first. Qed.
 Print Assumptions C06_sql_emplace_keeps_first.
 
 Theorem C06_mem_append_all_once : forall bprog m0 cfg k,
@@ -202,7 +197,7 @@ Proof. exact mem_append_all_once. Qed.
 Print Assumptions C06_mem_append_all_once.
 
 Theorem C06_sql_append_all_once : forall bprog db0 cfg k,
-  qreachable deployed_methods (qinit bprog db0) cfg -> nodupk db0 ->
+  qreachable gen_sqlite_methods (qinit bprog db0) cfg -> nodupk db0 ->
   (forall i, forallb bop_okb (bprog i) = true) ->
   (forall i, Forall (append_or_other k) (bprog i)) ->
   let ops := qops (applied (qdone cfg)) in
@@ -212,7 +207,7 @@ Theorem C06_sql_append_all_once : forall bprog db0 cfg k,
     | None, _ => Some ([], List.concat (map appended (key_ops k ops)))
     | Some (c, v0), _ => Some (c, v0 ++ List.concat (map appended (key_ops k ops)))
     end.
-Proof. exact sql_append_all_once. Qed.
+Proof. exact gen_sql_append_all_once. Qed.
 Print Assumptions C06_sql_append_all_once.
 
 (** ** The history checker used on recorded runs is sound *)
